@@ -55,7 +55,15 @@ def step (os : OState) (line : String) : OState × String :=
     (os, m ++ "\t" ++ v)
   | "rr" :: _ =>
     -- C16 end to end: whatever bytes arrive as a request head, the client gets a well-formed HTTP response
-    if (fs.drop 1).head? = some "tunnel2" then
+    if (fs.drop 1).head? = some "tunnel3" then
+      -- C10 / C01: a response the proxy could not complete is followed by NOTHING on that tunnel (it is closed)
+      (os, obs ++ "\t" ++
+        (if obs.startsWith "panic" then "bad:panic"
+         else if (obs.splitOn " incomplete then open").length > 1 then "bad:tunnel-left-open-after-incomplete-response"
+         else if (obs.splitOn " complete then open").length > 1 then "bad:tunnel-exchange-answered-with-something-else"
+         else if obs.startsWith "nothing then" then "bad:request-left-without-response"
+         else "ok"))
+    else if (fs.drop 1).head? = some "tunnel2" then
       -- C10: the exchange after an odd one gets ITS OWN answer, or finds the tunnel closed
       (os, obs ++ "\t" ++
         (if obs.startsWith "panic" then "bad:panic"
